@@ -8,7 +8,7 @@ import subprocess
 import sys
 import time
 
-from .build import Ctx, BuildError
+from .build import Ctx, BuildError, MARKER
 from .overlay import (apply_overlay, compile_overlay, load_ops, save_ops, verify_insert_only,
                       AnchorError, OverlayError)
 from .lex import LexError
@@ -53,13 +53,24 @@ def generate(u, repo=None, canary=None):
     """returns dict(text, inserted, raw, ctx, ops)"""
     raw, ctx = build_raw(u, repo)
     ops = load_unit_ops(u)
+    head, body = split_shim(raw)
     try:
-        text, inserted = apply_overlay(raw, ops)
+        text, inserted = apply_overlay(body, ops)
     except (AnchorError, LexError) as e:
         raise Undecided(str(e))
-    if not verify_insert_only(raw, text, inserted, ops):
+    if not verify_insert_only(body, text, inserted, ops):
         raise Undecided('internal: generated text minus insertions differs from the extracted text')
-    return dict(text=text, inserted=inserted, raw=raw, ctx=ctx, ops=ops)
+    n = len(head)
+    inserted = [(s + n, e + n, k) for s, e, k in inserted]
+    return dict(text=head + text, inserted=inserted, raw=raw, ctx=ctx, ops=ops)
+
+
+def split_shim(text):
+    k = text.find(MARKER)
+    if k < 0:
+        raise Undecided('internal: shim marker missing')
+    k += len(MARKER)
+    return text[:k], text[k:]
 
 
 def line_of(text, off):
